@@ -22,7 +22,8 @@
 
     This file contains nothing but statements closed by [exact]. *)
 From CG3 Require Import Lib.PyZ Lib.Val Lib.PySlice Model.View Model.IndelMap Model.IndelMapFixed Model.Aligned.
-From CG3 Require Import Spec.ViewSpec Spec.IndelMapSpec Spec.AlignedSpec Proofs.IndelMapBounded Proofs.AlignedProofs.
+From CG3 Require Import Model.AlignedArr.
+From CG3 Require Import Spec.ViewSpec Spec.IndelMapSpec Spec.AlignedSpec Proofs.IndelMapBounded Proofs.AlignedProofs Proofs.AlignedArrProofs.
 
 (** * rows *)
 
@@ -45,15 +46,31 @@ Proof. exact zlen_row_str. Qed.
 
 (** HEADLINE: slicing a row by alignment columns with Python's conventions -
     omitted bounds, negative bounds counted from the end, a start beyond the
-    stop; every gap layout, every window incl. those starting or ending inside
-    a gap run, every view state of the sequence - is the Python slice of the
-    gapped string.  [in_py_range n o]: the bound is omitted or lies in [-n, n]
-    (a bound below -n raises IndexError by design; one above n is C08-1). *)
+    stop, bounds beyond the end clamped; every gap layout, every window incl.
+    those starting or ending inside a gap run, every view state of the
+    sequence - is the Python slice of the gapped string.
+    [slice_guard vr n o]: the bound is omitted, or an integer not below [-n]
+    (a bound below [-n] raises IndexError by design) and, for the pinned
+    C08-1 variant only, not above [n]. *)
 Theorem aligned_slice_spec : forall (vr : variant) (r : arow) (x y : option Z),
-  RowWF r -> in_py_range (row_len r) x -> in_py_range (row_len r) y ->
+  RowWF r -> slice_guard vr (row_len r) x -> slice_guard vr (row_len r) y ->
   exists r', row_getitem_slice vr r x y = Ok r' /\ RowWF r' /\ skind (adata r') = skind (adata r) /\
              row_str r' = py_slice (row_str r) x y 1.
-Proof. exact row_slice_python. Qed.
+Proof. exact row_slice_any. Qed.
+
+(** the same spelt out for the code as it is after C08-1: ALL integer bounds from [-len] upwards *)
+Theorem aligned_slice_all_bounds_spec : forall (vr : variant) (r : arow) (x y : option Z),
+  RowWF r -> v_clamp vr = true ->
+  (match x with None => True | Some v => - row_len r <= v end) ->
+  (match y with None => True | Some v => - row_len r <= v end) ->
+  exists r', row_getitem_slice vr r x y = Ok r' /\ RowWF r' /\ skind (adata r') = skind (adata r) /\
+             row_str r' = py_slice (row_str r) x y 1.
+Proof. exact row_slice_clamped. Qed.
+
+(** beyond the end [get_seq_index] keeps counting (the sequence slice then clamps) *)
+Theorem get_seq_index_beyond_len : forall (m : imap) (x : Z), IndelMapSpec.WF m -> len m <= x ->
+  get_seq_index m x = Ok (parent_length m + (x - len m)).
+Proof. exact get_seq_index_beyond. Qed.
 
 Theorem aligned_index_spec : forall (vr : variant) (r : arow) (i : Z), RowWF r -> 0 <= i < row_len r ->
   exists r', row_getitem_int vr r i = Ok r' /\ RowWF r' /\ skind (adata r') = skind (adata r) /\
@@ -149,6 +166,62 @@ Theorem chain_hypotheses_example :
     chain_ok pinned (al_kind a, astr a)
       [OSlice (Some 1) (Some 4); ORc; OTakePos [2; 0] false; OFilter (PGapFrac [45; 63] 0 1) 1; OAddSlices 0 1 0 1].
 Proof. exact chain_example. Qed.
+
+(** * the array-backed class (Model/AlignedArr.v, transcribed from ArrayAlignment)
+
+    [good a]: at least one row, rows equally long (what the constructor enforces).
+    [arr_ok] excludes only: ragged rows given to [aln + other], the pinned
+    [take_positions(negate=True)] on a nucleic alignment (C03-2), a motif
+    length < 1, sample locations outside the alignment, to_rna / to_dna of a
+    non-nucleic alignment. *)
+
+(** HEADLINE: every method of the array-backed class - numpy slicing with any
+    stride, integer indexing, take_positions, take_seqs, filtered /
+    no_degenerates / omit_gap_pos (index arithmetic + take), rc, the three
+    [+], the boolean-mask get_degapped_relative_to, sample, sliding windows,
+    to_rna / to_dna - IS the string operation: equal results, equal exception
+    classes, and the result is again rectangular *)
+Theorem ops_refine_strings_array : forall (vr : variant) (k : kind) (a : salign) (o : aop),
+  good a -> arr_ok vr k a o ->
+  d_apply vr k a o = spec_apply k a o /\
+  match spec_apply k a o with Ok ka => good (snd ka) | Err _ => True end.
+Proof. exact d_apply_spec. Qed.
+
+Theorem chains_refine_strings_array : forall (vr : variant) (ops : list aop) (st : kind * dalign),
+  good (snd st) -> arr_chain_ok vr st ops ->
+  d_run vr st ops = spec_run ops st /\ good (snd (spec_run ops st)).
+Proof. exact d_run_spec. Qed.
+
+(** "the array-backed and the annotatable alignment classes give identical results" *)
+Theorem classes_agree : forall (vr : variant) (a : oalign) (o : aop), AlnWF a ->
+  op_ok vr (al_kind a) (astr a) o -> arr_ok vr (al_kind a) (astr a) o ->
+  match al_apply vr a o, d_apply vr (al_kind a) (astr a) o with
+  | Ok a', Ok kd => al_kind a' = fst kd /\ astr a' = snd kd
+  | Err e, Err e' => e = e'
+  | _, _ => False
+  end.
+Proof. exact classes_agree_lemma. Qed.
+
+Theorem array_chain_hypotheses_example :
+  good witness_rows /\
+  arr_chain_ok repaired (KDna, witness_rows)
+    [OSliceStep None None (-2); ORc; OTakePos [-1; 0] false; OFilter (PGapFrac [45; 63] 1 2) 1; OAddSelf; OSample [1; 0] 2].
+Proof. exact arr_chain_example. Qed.
+
+(** * read-only methods of the annotatable class are the same functions of the strings
+
+    names, num_seqs, len, to_dict, get_gapped_seq, iter_positions / positions,
+    get_gap_array, count_gaps_per_pos, is_ragged, degap (default arguments), on
+    every alignment satisfying the invariant - hence (chains_refine_strings)
+    on the result of every chain they answer as on a new object built from
+    the rows.  The remaining read-only methods are compared, not proved. *)
+Theorem readonly_refine_strings : forall a : oalign, AlnWF a ->
+  al_names a = s_names (astr a) /\ al_num_seqs a = zlen (astr a) /\ al_len a = slen (astr a) /\
+  al_strings a = astr a /\ (forall n, al_get_gapped_seq a n = s_get_gapped_seq (astr a) n) /\
+  al_positions a = s_positions (astr a) /\ al_gap_array a = s_gap_array (astr a) /\
+  al_count_gaps_per_pos a = s_count_gaps_per_pos (astr a) /\ al_is_ragged a = false /\
+  al_degap a = s_degap (astr a).
+Proof. exact readonly_refine_strings_lemma. Qed.
 
 (** * no character is altered other than by complementing or the T/U exchange *)
 
